@@ -1,5 +1,6 @@
 import GB.C09.ProofsRT
 import GB.C09.ProofsText
+import GB.Generated.Facts
 /-
   C09 — property theorems over the model of the field-level JSON codec (GB/C09/Model.lean, the code
   after fixes D9a–D9h) and the canonical proto3 JSON mapping for one field (GB/C09/Spec.lean).
@@ -460,6 +461,96 @@ example : parseJSON [34, 92, 39, 34] = none := by rfl                           
 example : parseJSON [49, 46] = none := by rfl                                          -- 1.
 example : renderCompact (.obj [([60, 10], .arr [.str [226, 128, 168, 255, 1]])])
     = [123, 34, 92, 117, 48, 48, 51, 99, 92, 110, 34, 58, 91, 34, 92, 117, 50, 48, 50, 56, 92, 117, 102, 102, 102, 100, 92, 117, 48, 48, 48, 49, 34, 93, 125] := by rfl
+
+/-! ### glue: the codec has no history, the configuration reaches every entry point -/
+
+/-- **The codec is history-free.** A marshaler is a function of (options, the resolver it is handed, the value):
+    the results of a sequence of uses — single-shot or through stream encoders/decoders, over any number of
+    targets and descriptor versions — are the use-wise results. -/
+theorem C09_codec_history_free (us : List CodecUse) :
+    runUses us = us.map fun u => encodeAny u.res u.val := by
+  unfold runUses
+  generalize (none : Option Resolver) = st
+  induction us generalizing st with
+  | nil => rfl
+  | cons u rest ih => simp [runUsesFrom, ih]
+
+/-- …so the i-th result depends on the i-th use only, whatever was encoded or decoded before it. -/
+theorem C09_codec_use_independent (us : List CodecUse) (i : Nat) :
+    (runUses us)[i]? = (us[i]?).map fun u => encodeAny u.res u.val := by
+  rw [C09_codec_history_free]; simp
+
+/-- with the resolver of the value's own target (it knows the type, with all the fields that are set) nothing is lost -/
+theorem C09_codec_own_resolver_lossless (res : Resolver) (a : AnyVal) (n : Nat)
+    (hk : res.find? (fun p => p.1 == a.typ) = some (a.typ, n)) (hf : ∀ f ∈ a.fields, f < n) :
+    encodeAny res a = .ok a := by
+  have : a.fields.filter (· < n) = a.fields := List.filter_eq_self.mpr (by simpa using hf)
+  simp [encodeAny, hk, this]
+
+/-- Negative witness (kernel-checked): a marshaler that caches a copy of itself bound to the resolver of its FIRST
+    stream. Stream for target X (knows type 1 with 2 fields), then a stream for target Y whose body carries an Any
+    of type 2, unknown to X: "unable to resolve". And after X's descriptor gained a field (3 fields), the new
+    field is silently dropped. The code's sequence gives the values back. -/
+theorem C09_cached_resolver_depends_on_history :
+    runUsesFrom true none [⟨true, [(1, 2)], ⟨1, [0, 1]⟩⟩, ⟨true, [(2, 2)], ⟨2, [0, 1]⟩⟩] = [.ok ⟨1, [0, 1]⟩, .err] ∧
+    runUsesFrom true none [⟨true, [(1, 2)], ⟨1, [0, 1]⟩⟩, ⟨true, [(1, 3)], ⟨1, [0, 1, 2]⟩⟩] = [.ok ⟨1, [0, 1]⟩, .ok ⟨1, [0, 1]⟩] ∧
+    runUses [⟨true, [(1, 2)], ⟨1, [0, 1]⟩⟩, ⟨true, [(2, 2)], ⟨2, [0, 1]⟩⟩] = [.ok ⟨1, [0, 1]⟩, .ok ⟨2, [0, 1]⟩] ∧
+    runUses [⟨true, [(1, 2)], ⟨1, [0, 1]⟩⟩, ⟨true, [(1, 3)], ⟨1, [0, 1, 2]⟩⟩] = [.ok ⟨1, [0, 1]⟩, .ok ⟨1, [0, 1, 2]⟩] := by
+  decide
+
+/-- **Unknown handling follows the configuration on every entry point**: with the root constructor's wiring the
+    decoded body is `decode` under the DiscardUnknown of the marshaler the configuration selects for the request
+    (`pickDiscard`) — the entry point (plain HTTP, streamed HTTP, SSE, WebSocket) is not an input. -/
+theorem C09_unknown_handling_follows_config (ops : FloatOps) (cfg : BridgeCfg) (e : Entry) (ct : Bool) (c : Card) (k : Kind) (j : J) :
+    entryDecode ops (rootWiring cfg) e ct c k j = decode ops { discard := pickDiscard cfg ct } c k j := by
+  cases e <;> rfl
+
+theorem C09_entry_points_agree (ops : FloatOps) (cfg : BridgeCfg) (e e' : Entry) (ct : Bool) (c : Card) (k : Kind) (j : J) :
+    entryDecode ops (rootWiring cfg) e ct c k j = entryDecode ops (rootWiring cfg) e' ct c k j := by
+  rw [C09_unknown_handling_follows_config, C09_unknown_handling_follows_config]
+
+/-- in particular a strict configuration rejects an unknown enum name on every entry point, a lenient one skips it -/
+theorem C09_entry_unknown_enum (ops : FloatOps) (e : Entry) (vals : EnumDesc) (name : Bytes) (hu : byName vals name = none) :
+    entryDecode ops (rootWiring ⟨some false, none⟩) e true .sing (.enum vals false) (.str name) = .err ∧
+    entryDecode ops (rootWiring ⟨none, none⟩) e true .sing (.enum vals false) (.str name) = .ok (.sing none) := by
+  rw [C09_unknown_handling_follows_config, C09_unknown_handling_follows_config]
+  have h := C09_enum_unknown ops
+  exact ⟨((h { discard := false } vals false name hu).2 rfl).1, ((h { discard := true } vals false name hu).1 rfl).1⟩
+
+/-- Negative witness: a constructor that does not hand the transcoder to the WebSocket bridge — strict over HTTP,
+    but the same body is accepted and the unknown name skipped over WebSocket. -/
+theorem C09_dropped_ws_transcoder_ignores_config (ops : FloatOps) :
+    entryDecode ops (droppedWsWiring ⟨some false, none⟩) .http true .sing (.enum [([65], 0)] false) (.str [66]) = .err ∧
+    entryDecode ops (droppedWsWiring ⟨some false, none⟩) .ws true .sing (.enum [([65], 0)] false) (.str [66]) = .ok (.sing none) := by
+  constructor <;> rfl
+
+/-- FACTS (regenerated by go/ast from the sources on every run): package transcoding has no package-level map,
+    sync.* value, channel or pointer besides the documented exported default marshaler; `NewEncoder` / `NewDecoder`
+    build the codec from their receiver and arguments only (a struct literal, plus `json.NewDecoder` on the reader) —
+    no call of another method, no package-level variable; `NewWebBridge` builds one StandardTranscoder and passes it
+    to both transcoded bridge handlers (the premise of `rootWiring`). -/
+theorem C09_facts_package_state :
+    GB.Generated.c09TranscodingPackageVars =
+      [("transcoding/http.go:acceptHeader", "other"), ("transcoding/http.go:contentTypeHeader", "other"),
+       ("transcoding/json.go:DefaultJSONMarshaler", "ptrMarshaler"), ("transcoding/json.go:nullJson", "slice")] := by
+  decide
+
+theorem C09_facts_no_shared_codec_state :
+    (GB.Generated.c09TranscodingPackageVars.filter fun p =>
+        p.2 == "map" || p.2 == "sync" || p.2 == "chan" || p.2 == "pointer" || p.2 == "ptrMarshaler").map (·.1)
+      = ["transcoding/json.go:DefaultJSONMarshaler"] := by
+  decide
+
+theorem C09_facts_codec_constructors :
+    GB.Generated.c09NewEncoderRefs = ["lit:jsonEncoder"] ∧
+    GB.Generated.c09NewDecoderRefs = ["call:json.NewDecoder", "lit:jsonDecoder"] := by
+  decide
+
+theorem C09_facts_bridge_wiring :
+    GB.Generated.c09BridgeTranscoderSites =
+      ["webbridge.TranscodedHTTPBridgeOpts:transcoder", "webbridge.TranscodedWebSocketBridgeOpts:transcoder"] ∧
+    GB.Generated.c09BridgeTranscoderCount = 1 := by
+  decide
 
 /-! ### non-vacuity: a float environment satisfying the laws; canonical values are accepted -/
 
